@@ -44,7 +44,7 @@ def kindFits (k : TypeKind) (t : Target) : Bool :=
 
 /-- record reading shared by objects and input objects: `fields` = (key, may be omitted, test) -/
 def recordMem (fields : List (String × Bool × (J → Bool))) (kvs : List (String × J)) : Bool :=
-  fields.all (fun f => let v := J.get kvs f.1; (f.2.1 && v.isAbsent) || (!v.isAbsent && f.2.2 v))
+  fields.all (fun f => let v := J.get kvs f.1; (f.2.1 && v.isAbsent) || f.2.2 v)
   && kvs.all (fun kv => kv.2.isAbsent || fields.any (·.1 == kv.1))
 
 /-- `Ref_t(T)` with fuel (each named-type step costs one) -/
